@@ -1,6 +1,7 @@
 package registry
 
 import (
+	"go/token"
 	"go/types"
 	"path"
 	"strings"
@@ -61,6 +62,12 @@ func (p Package) uniqueName(lvl int) string {
 	var name string
 	for i := 0; i < min(len(pp), lvl+1); i++ {
 		name = strings.ToLower(replacer.Replace(pp[i])) + name
+	}
+
+	// A path component may be a Go keyword or start with a digit
+	// (".../type", ".../2fa"), which cannot be used as a qualifier.
+	if !token.IsIdentifier(name) {
+		name = "_" + name
 	}
 
 	return name
